@@ -14,6 +14,7 @@ import IocProofs.Lemmas.ConcPaths
 import IocProofs.Lemmas.ConcWait
 import IocProofs.Lemmas.ConcNames
 import IocProofs.Lemmas.ConcEntry
+import IocProofs.Lemmas.ConcNinth
 
 namespace Ioc.C14
 open Ioc.Conc
@@ -348,5 +349,62 @@ example : Reach cfg 4 (fun j => (10 : Nat).testBit ([2, 3, 0, 1].getD j 0))
       (schedule cfg 4 (fun j => (10 : Nat).testBit ([2, 3, 0, 1].getD j 0)) 240 49 init) ∧
     mainReturned (schedule cfg 4 (fun j => (10 : Nat).testBit ([2, 3, 0, 1].getD j 0)) 240 49 init) :=
   ⟨schedule_sound cfg 4 _ 240 49 init, by unfold mainReturned; decide⟩
+
+/-! ### ninth round: who else takes part in the start of the App that is closed
+
+(a) user post-processors: `ResolveAfterInstantiation` asks every instantiation-aware processor and applies the
+`PostProcessProperties` of those that answer true — an answer `false` concerns the processor that gave it, the loop goes on
+(section 9 of Ioc.Conc). `App.CloserComponents` is filled from what the built-in dependency processor finds while the App is
+populated. (b) other components with an injection point of the closer interface type have candidates of their own; what
+they keep of them does not touch what the App is offered. Both are tied to the code by the real runs (`closeq`, `closeh`). -/
+
+/-- An answer `false` is local: among ANY post-processors, in any order, whatever the others answer, a processor that answers
+    true has its PostProcessProperties applied. -/
+theorem C14_veto_is_local (ps : List IProc) (p : IProc) (hp : p ∈ ps) (ha : p.aware = true) (hpop : p.populate = true) :
+    p.id ∈ resolveAfter ps :=
+  resolveAfter_mem ps p hp ha hpop
+
+/-- … so the App is offered its closers whatever user post-processors stand before and behind the dependency processor
+    (and they are then closed exactly once: C14_all_once). -/
+theorem C14_closers_collected_among_any_processors (pre post : List IProc) :
+    collectsClosers (resolveAfter (pre ++ depProc :: post)) = true := by
+  unfold collectsClosers
+  rw [List.contains_iff_mem]
+  exact resolveAfter_mem _ depProc (by simp) rfl rfl
+
+/-- The loop that ENDS at the first answer `false` applies nothing behind that processor: with a user processor that keeps
+    the default answer anywhere before the dependency processor, the App is never offered a closer. -/
+theorem C14_break_on_veto_counterexample (pre post : List IProc) (v : IProc) (ha : v.aware = true) (hv : v.populate = false) :
+    ∀ x, x ∈ resolveAfterBreak (pre ++ v :: post) → x ∈ pre.map (·.id) :=
+  resolveAfterBreak_stops pre post v ha hv
+
+/-- the processors of `closeq 6 42 o1d 55`: a user processor Ordered 0 that keeps the default answer, then the built-in
+    ordered ones: the code's loop applies the dependency processor, the loop that breaks applies nothing -/
+example : collectsClosers (resolveAfter [⟨100, true, false⟩, depProc, ⟨3, true, true⟩, ⟨1, true, true⟩]) = true ∧
+    resolveAfterBreak [⟨100, true, false⟩, depProc, ⟨3, true, true⟩, ⟨1, true, true⟩] = [] := by decide
+
+-- non-vacuity of C14_veto_is_local / C14_break_on_veto_counterexample
+example : depProc ∈ [⟨100, true, false⟩, depProc] ∧ depProc.aware = true ∧ depProc.populate = true ∧
+    (⟨100, true, false⟩ : IProc).aware = true ∧ (⟨100, true, false⟩ : IProc).populate = false := by decide
+
+/-- Every injection point has candidates of its own: whatever the holders populated before the App keep of theirs, the App
+    is offered the enumeration of the registered closers — each of them exactly once. -/
+theorem C14_own_candidates_every_closer_once (enum : List Nat) (holders : List (Nat → Bool)) (h : enum.Nodup) :
+    ownCandidates enum holders = enum ∧ ∀ c, c ∈ enum → (ownCandidates enum holders).count c = 1 :=
+  ⟨rfl, fun c hc => nodup_count_one enum h c hc⟩
+
+/-- ONE candidate array per type that every holder filters in place: closers 0..5, a holder that keeps the closers 2 and 5
+    (`qualifier=db`) compacts the array to 2 5 2 3 4 5 — the App, populated afterwards, is offered closers 2 and 5 twice and
+    closers 0 and 1 not at all; when the qualifying closers happen to be enumerated first nothing shows. -/
+theorem C14_shared_candidates_counterexample :
+    sharedCandidates [0, 1, 2, 3, 4, 5] [fun i => i == 2 || i == 5] = [2, 5, 2, 3, 4, 5] ∧
+    sharedCandidates [2, 5, 0, 1, 3, 4] [fun i => i == 2 || i == 5] = [2, 5, 0, 1, 3, 4] := by decide
+
+/-- the run the driver makes for `closeh 6 18 ssdssd ldb 62` (six closers; closers 1 and 4 fail): Close returned, every
+    closer invoked once -/
+example : Reach cfg 6 (fun j => (18 : Nat).testBit ((List.range 6).getD j 0))
+      (schedule cfg 6 (fun j => (18 : Nat).testBit ((List.range 6).getD j 0)) 320 62 init) ∧
+    mainReturned (schedule cfg 6 (fun j => (18 : Nat).testBit ((List.range 6).getD j 0)) 320 62 init) :=
+  ⟨schedule_sound cfg 6 _ 320 62 init, by unfold mainReturned; decide⟩
 
 end Ioc.C14
